@@ -128,18 +128,30 @@ def profiles_for(pid, tier):
                 ("reader-nousage", dict(three, _mode={"reader": True}, w_sweep=4, usage=False), N(60, 400))],
         "C10": [("crash", dict(three, w_crash=6, w_sweep=3, quiesce=True), N(160, 1500)),
                 ("crash-usage", dict(base, w_crash=8, w_sweep=4, quiesce=True, usage=True), N(100, 1000)),
-                ("resend", dict(three, n_ops=30, w_sweep=1, w_restart=1), N(60, 500))],
+                ("resend", dict(three, n_ops=30, w_sweep=1, w_restart=1), N(60, 500)),
+                ("resend-small", dict(base, n_ops=24, apps=["a"], sides=["s1", "s2", "s3"], names=["1"], client_mailboxes=["m1"],
+                                      w_claim=12, w_release=12, w_open=12, w_close=12, w_add=4, w_reconnect=8, w_allocate=0,
+                                      w_sweep=1, w_restart=0, w_malformed=0), N(60, 500))],
         "C11": [("restart", dict(three, w_restart=5, w_sweep=5, w_reconnect=8), N(160, 1500)),
                 ("small-world", dict(base, n_ops=60, apps=["a"], sides=["s1", "s2"], names=["1"], client_mailboxes=["m1"],
                                      w_open=14, w_close=12, w_add=8, w_reconnect=12, w_drop=6, w_claim=3, w_allocate=0,
                                      w_release=2, w_sweep=7, w_bigjump=5, w_restart=4), N(160, 1500))],
         "C12": [("timer", dict(three, _mode={"timer": True}, timer=True, w_sweep=6, w_crash=0, w_reconnect=6, w_bigjump=2), N(160, 1500)),
-                ("direct", dict(three, w_sweep=8, w_bigjump=3), N(100, 800))],
+                ("direct", dict(three, w_sweep=8, w_bigjump=3), N(100, 800)),
+                # usage blurring configured, the history crosses a multiple of the blur interval: recorded times are
+                # coarse, expiry decisions must not be
+                ("timer-blur-boundary", dict(three, _mode={"timer": True}, timer=True, start="boundary", usage=True, w_sweep=8, w_drop=6,
+                                             w_reconnect=8, w_crash=0, w_restart=1), N(80, 600))],
         "C13": [("timer-quiesce", dict(three, _mode={"timer": True}, timer=True, w_sweep=5, quiesce=True, p_fault=0.25), N(160, 1500)),
                 ("crash-quiesce", dict(base, w_crash=4, w_sweep=4, quiesce=True, w_fault=2, usage=True), N(100, 800)),
                 ("odd-apps-shared-ids", dict(base, apps=["a", "", "ü"], sides=["s1", "s2"], names=["1", ""], shared_mailbox_ids=True,
                                              client_mailboxes=["m1"], w_open=12, w_add=12, w_sweep=4, quiesce=True), N(100, 800))],
-        "C14": [("dup", dict(three, w_reconnect=6, w_sweep=2), N(120, 1000))],
+        "C14": [("dup", dict(three, w_reconnect=6, w_sweep=2), N(120, 1000)),
+                # one nameplate, one mailbox, three sides: the situations in which a duplicate matters (a second
+                # side present, a crowded third, a nameplate still pointing at the mailbox, a mailbox already gone)
+                ("small-world", dict(base, n_ops=30, apps=["a"], sides=["s1", "s2", "s3"], names=["1"], client_mailboxes=["m1"],
+                                     w_claim=14, w_release=14, w_open=10, w_close=10, w_add=3, w_reconnect=10, w_connect=6,
+                                     w_allocate=0, w_list=2, w_sweep=1, w_restart=1, w_malformed=0), N(100, 800))],
         "C15": [("usage", dict(three, usage=True, w_close=12, w_release=10, w_sweep=5, w_bigjump=3), N(200, 2000)),
                 ("crowded-expiry", dict(base, usage=True, apps=["a"], sides=["s1", "s2", "s3", "s4"], names=["1"], client_mailboxes=["m1"],
                                         w_open=14, w_claim=12, w_close=8, w_add=4, w_release=4, quiesce=True), N(80, 600))],
@@ -414,7 +426,7 @@ def _run_oracles(pid, tr, meta):
     elif pid == "C02":
         f += O.check_C02(tr)
     elif pid == "C03":
-        f += O.check_C03(tr)
+        f += O.check_C03(tr, info()["expirationTicks"])
     elif pid == "C04":
         f += O.check_C04(tr, info()["alloc"])
     elif pid == "C05":
